@@ -17,7 +17,7 @@ from facts import strip, show, walk, const_val, normalize_cond, atom_of
 def check(run, prog, tier):
     run.rule("C16-a", "save_object: stream opened on the temporary; writes use that stream; the final name appears only as rename()'s target, after a successful fclose and under `success`; failure paths unlink the temporary", 5)
     run.rule("C16-b", "svalue_save_size / save_svalue agree per tag (cases, constant overhead, per-element delimiters); save_object_recurse and save_variable allocate what svalue_save_size returned", 8)
-    run.rule("C16-d", "top-level restore functions reset the parser's file-scope nesting state (save_svalue_depth / save_svalue_sizes) on every path after a compound restore, success or error", 1)
+    run.rule("C16-d", "top-level restore functions clear the parser's file-scope nesting state (save_svalue_depth) before every compound restore starts, or reset it on every path after one, success or error", 1)
     run.rule("C16-c", "safe_restore_svalue assigns *v only on the success path, after freeing the old value; every parse-error return precedes it", 2)
 
     unit = prog.unit("lib/lpc/object.c")
@@ -200,8 +200,14 @@ def check(run, prog, tier):
             p = f.reach_avoiding(b.live_succ() if b.id not in resets else [], lambda blk: f.exit in blk.live_succ() and not blk.nr, avoid_blocks=resets)
             if p is not None:
                 bad = (n["fn"], p)
-        ok = bool(resets) and zero and bad is None
-        run.ob("C16-d", "reset:%s" % f.name, ok, "after %s every path to a return passes the `if (save_svalue_depth)` reset: %s" % ("/".join(sorted({n["fn"] for b, i, n in calls})), ok) if ok else
+        # alternatively the state is cleared when a container restore starts: a plain `save_svalue_depth = 0` that
+        # dominates every call of restore_array/mapping/class makes a leftover from an earlier error harmless
+        entry = [(b2.id, i2) for b2, i2, n2 in f.nodes() if n2.get("k") == "Asg" and n2.get("op") == "=" and strip(n2["L"]).get("n") == "save_svalue_depth" and const_val(n2["R"]) == 0]
+        entry_ok = bool(calls) and all(any(f.point_dominates(e, (b.id, i)) for e in entry) for b, i, n in calls)
+        ok = (bool(resets) and zero and bad is None) or entry_ok
+        if entry_ok and not (bool(resets) and zero and bad is None):
+            bad = None
+        run.ob("C16-d", "reset:%s" % f.name, ok, ("save_svalue_depth is cleared before every container restore starts" if entry_ok and not (bool(resets) and zero) else "after %s every path to a return passes the `if (save_svalue_depth)` reset (and the depth is %scleared on entry)" % ("/".join(sorted({n["fn"] for b, i, n in calls})), "" if entry_ok else "not ")) if ok else
                ("path %s returns from %s after %s without resetting save_svalue_depth/save_svalue_sizes" % (bad[1][:8], f.name, bad[0]) if bad else "%s has no reset of the nesting state" % f.name),
                f.file, f.line, f.name, what="%s can return (on a parse error) with the restore nesting state still set: the next restore of valid text is mis-sized or reads a freed table" % f.name)
 
